@@ -182,6 +182,11 @@ func init() {
 		"zzSleptNs": func(fr *frame, a []value) value {
 			return wrapTerm(types.Typ[types.Int64], fr.i.side.sleptTerm())
 		},
+		"zzEngineOnly": func(fr *frame, a []value) value {
+			// virtual time / scheduler control: replayed by the interpreter, not natively
+			fr.i.path.ex.usesStubs = true
+			return nil
+		},
 		"zzConcreteRand": func(fr *frame, a []value) value {
 			fr.i.side.concreteRand = true
 			return nil
